@@ -6,7 +6,7 @@ A spec is
 country = {'code','cur','region':bool,'gov':None|'CONS'|'TRECB'|'GOLD','hh':None|'HH'|'HHX','cap':bool,
            'bus':None|'FM'|'MO','margin':0.0|0.1,'tax':None|rate,'mon':bool,'dep':None|'const'|'rate',
            'a1','a2','G':path-id,'r':path-id,'ic':bool}
-link    = ['gift', src_country, dst_country, inc_src, inc_dst] | ['import', supplier_country, market_country]
+link    = ['gift', src_country, dst_country, inc_src, inc_dst] | ['import', supplier_country, market_country(, 'foreign-residual')]
 
 build(spec, order=None, names=None) declares the sectors of each country in the given order (default: canonical),
 then runs the fixed tail of post-declaration calls.
@@ -180,7 +180,45 @@ def build(spec, order=None, names=None, maxtime=None):
     return b
 
 
+def probe_regression(spec, r, order=None):
+    """A spec built with the read-only mid-build look-ups fails although the same spec without them runs: message, else None."""
+    if not spec.get('probe'):
+        return None
+    failed = r.stage == 'build' or (r.error is not None and type(r.error).__name__ != 'ConvergenceError')
+    if not failed:
+        return None
+    plain = json.loads(json.dumps(spec))
+    plain.pop('probe')
+    r2 = run(plain, order=order)
+    if r2.stage == 'build' or (r2.error is not None and type(r2.error).__name__ != 'ConvergenceError'):
+        return None
+    return 'the model fails (%s: %s) once read-only look-ups are made while it is being built; without them it runs' % (
+        type(r.error).__name__, str(r.error)[:120])
+
+
+def _probe(b):
+    """Read-only public look-ups a user may make while the model is still being built; they must not change what is generated."""
+    m = b.model
+    m.GetSectors()
+    for co in b.countries.values():
+        secs = list(co.GetSectors())
+        zone = co.CurrencyZone
+        zsecs = list(zone.GetSectors())
+        for s_ in secs[:1]:
+            co.LookupSector(s_.Code)
+            try:
+                zone.LookupSector(s_.Code)
+            except Exception:
+                pass            # ambiguous in a zone of several regions: refusing is fine, it is a read-only question
+            s_.GetVariables()
+        for s_ in zsecs[-1:]:
+            s_.IsSharedCurrencyZone(zsecs[0])
+        co.Code in m
+
+
 def _declare(b, c, co, did, names, specs_by_code, imported, deferred):
+    if b.spec.get('probe'):
+        _probe(b)
     code = c['code']
     S = b.sectors
     if did == 'GOV':
@@ -330,8 +368,12 @@ def _tail(b, names):
             home = S[(l[2], 'BUS')]
             hh = S[(l[2], 'HH')]
             market.AddVariable('MU', 'Propensity to import', '0.2')
-            market.AddSupplier(supplier, 'MU*{0}'.format(hh.GetVariableName('INC')))
-            market.AddSupplier(home)
+            if len(l) > 3 and l[3] == 'foreign-residual':
+                market.AddSupplier(home, 'MU*{0}'.format(hh.GetVariableName('INC')))
+                market.AddSupplier(supplier)
+            else:
+                market.AddSupplier(supplier, 'MU*{0}'.format(hh.GetVariableName('INC')))
+                market.AddSupplier(home)
         else:
             raise ValueError(l)
     if spec.get('ext'):
@@ -478,6 +520,7 @@ def family_single():
     devs = []
     for label, upd in country_deviations(base['countries'][0], False):
         devs.append((label, (lambda u: (lambda s: apply_country(s, 0, u)))(upd)))
+    devs.append(('probe:mid-build', lambda s: None if s.get('probe') else _set(s, probe=True)))
     return 'single', base, devs
 
 
@@ -497,6 +540,7 @@ def family_federated():
         t['countries'][1]['region_default_currency'] = True      # Region(model, code): the currency defaults to the federation's
         return t
     devs.append(('R:default-currency', defcur))
+    devs.append(('probe:mid-build', lambda s: None if s.get('probe') else _set(s, probe=True)))
     return 'federated', base, devs
 
 
@@ -524,6 +568,8 @@ def _link_devs(pairs):
         devs.append(('giftni:%s>%s' % (a, b), (lambda l: (lambda s: _add_link(s, l)))(['gift', a, b, False, True])))
         devs.append(('giftdef:%s>%s' % (a, b), (lambda l: (lambda s: _add_link(s, l)))(['gift', a, b, True, True, 'defaults'])))
         devs.append(('import:%s>%s' % (a, b), (lambda l: (lambda s: _add_link(s, l)))(['import', a, b])))
+        # the home producer gets the fixed share and the FOREIGN producer is the market's residual supplier
+        devs.append(('import-residual:%s>%s' % (a, b), (lambda l: (lambda s: _add_link(s, l)))(['import', a, b, 'foreign-residual'])))
     return devs
 
 
@@ -561,6 +607,7 @@ def family_two_zones():
     devs.append(('manualgold:AA+late-region', lambda s: _set(s, ext='first', manual_gold='AA', late_region=['AR', 'AA'])
                  if not s.get('manual_gold') else None))
     devs.append(('manualgold:BB', lambda s: _set(s, ext='mid', manual_gold='BB') if not s.get('manual_gold') else None))
+    devs.append(('probe:mid-build', lambda s: None if s.get('probe') else _set(s, probe=True)))
     return 'two_zones', base, devs
 
 
